@@ -17,7 +17,7 @@
 
    All theorems hold for every aggregation a in {day, week, month, quarter, year}, fill, diff and now flag. *)
 From Klog Require Import Base.Prelude Model.Calendar Model.Values Model.Record Model.Lines Model.Parser Model.Eval Model.Period
-  Model.Report Proofs.Calendar Proofs.Period Proofs.Eval Proofs.Report.
+  Model.Tags Model.Query Model.Report Proofs.Calendar Proofs.Period Proofs.Eval Proofs.Report.
 From Coq Require Import Permutation Sorted.
 Open Scope Z_scope.
 
@@ -141,6 +141,13 @@ Print Assumptions C12_with_totals_sum.
 Theorem C12_parsed_records_valid : forall s rs bs, parse_text s = Ok (Parsed rs bs) -> Forall vrec rs.
 Proof. exact parsed_records_valid. Qed.
 Print Assumptions C12_parsed_records_valid.
+
+(* ---- "for every valid input and filter": klog report / total / print apply FilterArgs.ApplyFilter (Model/Query.v
+        filter_records, property C13) before anything else; what it returns again carries valid dates, so every
+        theorem above holds verbatim with `filter_records q rs` in place of rs ---- *)
+Theorem C12_filtered_input : forall q rs, Forall vrec rs -> Forall vrec (filter_records q rs).
+Proof. exact filter_records_vrec. Qed.
+Print Assumptions C12_filtered_input.
 
 (* ================= non-vacuity: concrete records satisfy the hypotheses, and the model computes ================= *)
 
